@@ -26,7 +26,7 @@ R_BASE, R_CNT, R_SPIN, R_TMP = 29, 30, 31, 28
 
 def plan(tier, seed):
   q = tier == "quick"
-  return [{"hashseed": (seed * 17 + i) % 811, "programs": 5 if q else 120, "cksums": 30 if q else 600, "part": i}
+  return [{"hashseed": (seed * 17 + i) % 811, "programs": 8 if q else 120, "cksums": 30 if q else 600, "part": i}
           for i in range(16 if q else 32)]
 
 
@@ -76,8 +76,9 @@ def gen_block(rng, n, allow_branch=True):
     elif allow_branch:
       k = rng.randrange(1, 5)
       shadow = []
-      for _ in range(k):
+      for j in range(k):
         c = rng.random()
+        if j == 0 and c < 0.3: c = 0.55       # instruction right behind the branch stalls in D on its own (empty mngr2proc queue)
         if c < 0.3: shadow.append(("sw", rng.choice(WORK), R_BASE, 4 * rng.randrange(NWORDS)))
         elif c < 0.5: shadow.append(("csrw", rv0ref.PROC2MNGR, rng.choice(WORK)))
         elif c < 0.6: shadow.append(("csrr", rng.choice(WORK), rv0ref.MNGR2PROC))
@@ -230,7 +231,8 @@ def run_program(sh, rng, case, monitor_only=False):
     for t in range(ntim):
       timing = {"latency": rng.choice([1, 1, 2, 3, 6]), "stall": rng.choice([0, 0, 0.2, 0.5, 0.8]),
                 "sink_pattern": rng.choice([[1], [1], [1, 0], [0, 0, 1], [1] * 5 + [0] * 9])}
-      gaps = [rng.choice([0, 0, 0, 1, 5]) for _ in src_vals]
+      gprof = rng.choice([[0], [0, 0, 0, 1, 5], [0, 3, 8, 15, 30], [6, 10, 20]])      # incl. a manager that starves the processor
+      gaps = [rng.choice(gprof) for _ in src_vals]
       bound = int(ref.steps * (timing["latency"] + 2) * 40 / (1 - timing["stall"])) + 3000
       out, image, cyc, err, src_used = run_level(level, words, init_mem, src_vals, gaps, timing, len(exp_out), bound)
       sh.count("level_runs"); sh.count("evaluations")
